@@ -164,6 +164,25 @@ def item_wf(st, item):
                                                Val.addr(item) < st.g["Alloc"]))
 
 
+def child_class_allowed(eng, st, item, value):
+    """The data is admissible for the class of the child node `item` (the dict / list class of the family)."""
+    me = st.loc["self"] if "self" in st.loc else None
+    ci = st.rec(me).cls
+    fd, fl = core.sc.family(eng, ci)
+    a = Val.addr(item)
+    return z3.If(smt.inst(smt.ClsOf(a), z3.IntVal(smt.tid_of("Mapping"))), core.allowed(eng, fd, value),
+                 core.allowed(eng, fl, value))
+
+
+def keeps_identity(eng, st, old_item, had, value):
+    """C02: the position held a nested collection and the new value is a container of the same kind (and is
+    admissible for it): the SAME child object must stay in place."""
+    a = Val.addr(old_item)
+    same_kind = z3.If(smt.inst(smt.ClsOf(a), z3.IntVal(smt.tid_of("Mapping"))), core.is_mapping(value),
+                      core.is_sequence(value))
+    return z3.And(had, smt.is_VRef(old_item), value != VNone, same_kind, child_class_allowed(eng, st, old_item, value))
+
+
 def havoc_heap(st):
     for n in list(st.g):
         if n in ("Cell", "View", "Alloc") or n.startswith("LockDom:"):
@@ -212,25 +231,32 @@ class UpdateDictLoop1(LoopSpec):
 
     def prepare(self, L, st):
         D = self.data(st)
-        k0 = smt.fresh("k0")
-        st.ghost["k0"] = k0
+        k0 = smt.fresh("k0")      # the key the final content comparison will be made at (fixed at the last loop's exit)
+        k1 = smt.fresh("k1")      # a key that stays arbitrary (identity clause)
+        st.ghost["k0"], st.ghost["k1"] = k0, k1
         st.ghost["fn_entry"] = st.copy()
-        L.sk["k0"] = k0
+        L.sk["k0"], L.sk["k1"] = k0, k1
         L.sk["idx_k0"] = key_index(D, k0)
-        for f in mapping_key_facts(D, k0):
-            st.assume(f)
-        # Inv at entry, pointwise at k0: container and view agree, references are nodes of this tree
+        L.sk["idx_k1"] = key_index(D, k1)
         c0, V0 = self_cell(st), self_view(st)
-        it = bs.dict_get(c0, k0)
-        st.assume(bs.dict_has(c0, k0) == bs.dict_has(V0, k0),
-                  z3.Implies(bs.dict_has(c0, k0), L.eng.intr.iv(st, it) == bs.dict_get(V0, k0)),
-                  item_wf(st, it), smt.tyof(V0) == T_DICT)
+        for k in (k0, k1):
+            for f in mapping_key_facts(D, k):
+                st.assume(f)
+            # Inv at entry, pointwise: container and view agree, references are nodes of this tree
+            it = bs.dict_get(c0, k)
+            st.assume(bs.dict_has(c0, k) == bs.dict_has(V0, k),
+                      z3.Implies(bs.dict_has(c0, k), L.eng.intr.iv(st, it) == bs.dict_get(V0, k)),
+                      item_wf(st, it), smt.tyof(V0) == T_DICT)
 
     def havoc(self, L, st):
         havoc_heap(st)
 
     def invariant(self, L, st, vis, k=None):
-        k = k if k is not None else L.sk["k0"]
+        if k is None:
+            a = self.invariant(L, st, vis, L.sk["k0"])
+            b = [(lab + "@k1", cl) for (lab, cl) in self.invariant(L, st, vis, L.sk["k1"]) if not lab.startswith(
+                ("alloc", "root-view", "other-tree", "lock-table", "typed"))]
+            return a + b
         D = self.data(st)
         j = key_index(D, k)
         E = st.ghost["fn_entry"]
@@ -246,6 +272,8 @@ class UpdateDictLoop1(LoopSpec):
                 bs.dict_has(c, k) == bs.dict_has(c0, k),
                 z3.Implies(bs.dict_has(c, k), z3.And(it == bs.dict_get(c0, k), bs.dict_get(V, k) == bs.dict_get(V0, k)))))),
             ("typed", smt.tyof(V) == T_DICT),
+            ("identity-kept", z3.Implies(z3.And(done, keeps_identity(L.eng, st, bs.dict_get(c0, k), bs.dict_has(c0, k),
+                                                                     bs.dict_get(D, k))), it == bs.dict_get(c0, k))),
         ]
         return out + surroundings(L, st, E)
 
@@ -257,13 +285,44 @@ class UpdateDictLoop1(LoopSpec):
         st.ghost["item_terms"] = [it0]
         st.ghost["skolem_addr"] = list(st.ghost.get("skolem_addr", [])) + [Val.addr(it0)]
         new_i = item_val(D, i)
-        return [z3.Implies(ki == k0, i == L.sk["idx_k0"]),
+        k1 = L.sk["k1"]
+        it1 = bs.dict_get(c, k1)
+        st.ghost["item_terms"] = [it0, it1]
+        st.ghost["skolem_addr"] = list(st.ghost.get("skolem_addr", [])) + [Val.addr(it1)]
+        extra = [z3.Implies(ki == k1, i == L.sk["idx_k1"]),
+                 z3.Implies(z3.And(ki != k1, smt.is_VRef(it1), smt.is_VRef(iti)), Val.addr(it1) != Val.addr(iti)),
+                 z3.Implies(z3.And(k0 != k1, smt.is_VRef(it1), smt.is_VRef(it0)), Val.addr(it1) != Val.addr(it0))]
+        return extra + [z3.Implies(ki == k0, i == L.sk["idx_k0"]),
                 # [A-TREE] distinct slots hold distinct nodes
                 z3.Implies(z3.And(ki != k0, smt.is_VRef(it0), smt.is_VRef(iti)), Val.addr(it0) != Val.addr(iti)),
                 item_wf(st, iti),
                 # [N-VIEW] plain views hold no tuples / bytes: a value that compares equal to one is unchanged by the
                 # tuple/bytes -> list normalisation, as far as Python == is concerned
-                z3.Implies(pyeq(new_i, L.eng.intr.iv(st, iti)), pyeq(bs.plain(new_i), L.eng.intr.iv(st, iti)))]
+                z3.Implies(pyeq(new_i, L.eng.intr.iv(st, iti)), pyeq(bs.plain(new_i), L.eng.intr.iv(st, iti)))] \
+            + self.validator_facts(L, st, D, i, ki, new_i)
+
+    def validator_facts(self, L, st, D, i, ki, new_i):
+        """Unfolding of the spec predicates at the current item (and at k0's item), the one-item literal
+        {key: new_value} the code validates, and the lemma json_ok => strkeys at the item."""
+        from contracts import validators as V
+        me = st.loc["self"]
+        names = L.eng.R["classes"][st.rec(me).cls.name]["all_validators"]
+        fd, fl = core.sc.family(L.eng, st.rec(me).cls)
+        names = set(names) | set(L.eng.R["classes"][fd.name]["all_validators"]) | set(L.eng.R["classes"][fl.name]["all_validators"])
+        preds = set()
+        for n in names:
+            preds.update(V.VALIDATOR_PREDS[n])
+        out = []
+        j0 = L.sk["idx_k0"]
+        for pn in sorted(preds):
+            out.extend(V.unfold(pn, D, [i, j0, L.sk["idx_k1"]]))
+        out.extend(V.family_lemmas(item_val(D, L.sk["idx_k1"])))
+        lit = bs.dict_set(bs.dict_empty, ki, new_i)
+        out.extend(V.singleton_axioms(lit, ki, new_i))
+        out.extend(V.family_lemmas(new_i))
+        out.extend(V.family_lemmas(item_val(D, j0)))
+        out.append(V.type_discipline(D))
+        return out
 
 
 class UpdateDictLoop2(LoopSpec):
@@ -272,19 +331,25 @@ class UpdateDictLoop2(LoopSpec):
        k0 in T and visited  =>  k0 not in c
        otherwise            =>  the slot of k0 is exactly as when T was built."""
     def prepare(self, L, st):
-        k0 = st.ghost["k0"]
-        L.sk["k0"] = k0
+        k0, k1 = st.ghost["k0"], st.ghost["k1"]
+        L.sk["k0"], L.sk["k1"] = k0, k1
         flt = L.seq.source["filter"]
         T = L.seq.term
         L.sk["idx_T"] = F("filter_index", Val, Val, IntS)(T, k0)
-        for f in flt["key_facts"](k0):
-            st.assume(f)
+        L.sk["idx_T1"] = F("filter_index", Val, Val, IntS)(T, k1)
+        for k in (k0, k1):
+            for f in flt["key_facts"](k):
+                st.assume(f)
 
     def havoc(self, L, st):
         havoc_heap(st)
 
     def invariant(self, L, st, vis, k=None, j=None):
-        k = k if k is not None else L.sk["k0"]
+        if k is None:
+            a = self.invariant(L, st, vis, L.sk["k0"])
+            b = [(lab + "@k1", cl) for (lab, cl) in self.invariant(L, st, vis, L.sk["k1"]) if not lab.startswith(
+                ("alloc", "root-view", "other-tree", "lock-table", "typed"))]
+            return a + b
         flt = L.seq.source["filter"]
         T = L.seq.term
         j = j if j is not None else F("filter_index", Val, Val, IntS)(T, k)
@@ -312,7 +377,7 @@ class UpdateDictLoop2(LoopSpec):
     def iteration_facts(self, L, st, i):
         k0 = L.sk["k0"]
         ei = seq_at(L.seq.term, i)
-        return [z3.Implies(ei == k0, i == L.sk["idx_T"])]
+        return [z3.Implies(ei == k0, i == L.sk["idx_T"]), z3.Implies(ei == L.sk["k1"], i == L.sk["idx_T1"])]
 
     def at_exit(self, L, st):
         V, k0 = self_view(st), L.sk["k0"]
@@ -340,6 +405,14 @@ class VirtualUpdate(Contract):
             a = ca(c)
             return z3.If(smt.inst(smt.ClsOf(a), z3.IntVal(smt.tid_of("Mapping"))), core.is_mapping(dval(c)),
                          core.is_sequence(dval(c)))
+
+        def child_ok(c):
+            owner = c.b["self"].meta.get("item_of")
+            ci = c.pre.rec(owner).cls
+            fd, fl = core.sc.family(c.eng, ci)
+            d = core.iv(c, c.pre, c.b["data"])
+            return z3.If(smt.inst(smt.ClsOf(ca(c)), z3.IntVal(smt.tid_of("Mapping"))), core.allowed(c.eng, fd, d),
+                         core.allowed(c.eng, fl, d))
 
         def mod(c):
             return [("g", "View"), ("g", "Cell"), ("g", "Alloc")] + [("g", n) for n in c.pre.g if n.startswith("LockDom:")]
@@ -404,8 +477,8 @@ class VirtualUpdate(Contract):
             Case("updated", "normal", guard=lambda c: z3.And(dval(c) != VNone, kind_ok(c)), modifies=mod, post=post_ok,
                  result=lambda c: Const(None)),
             Case("wrong-kind", "raise", guard=lambda c: z3.And(dval(c) != VNone, z3.Not(kind_ok(c))), exc=("ValueError",)),
-            Case("rejected-entry", "raise", guard=lambda c: z3.And(dval(c) != VNone, kind_ok(c)), modifies=mod,
-                 post=lambda c: slot(c, []), exc=core.EXC_VALIDATION),
+            Case("rejected-entry", "raise", guard=lambda c: z3.And(dval(c) != VNone, kind_ok(c), z3.Not(child_ok(c))),
+                 modifies=mod, post=lambda c: slot(c, []), exc=core.EXC_VALIDATION),
         ]
 
 
